@@ -2,4 +2,4 @@ package main
 
 import "verifharness/c07"
 
-func init() { runners["C07"] = c07.Run }
+func init() { runners["C07"] = c07.Run; facts["C07"] = c07.Facts }
